@@ -280,7 +280,7 @@ StringDictionary *StringDictionaryHASHRPDAC::load(std::istream &in,
     return NULL;
 
   StringDictionaryHASHRPDAC *dict = new StringDictionaryHASHRPDAC();
-  dict->type = technique;
+  (void)technique; // this kind has a single hash representation
   dict->elements = loadValue<uint64_t>(in);
   dict->maxlength = loadValue<uint32_t>(in);
 
